@@ -104,14 +104,26 @@ def run_cases(ctx, n_tables, check_model):
         if ctx.rng.random() < 0.3:
             # history: the table is built with other flags and used once, then the flags are set (Pump.__post_init__ and the Excel loader switch
             # extrapolation on after construction): every later lookup follows the flags as they are now
-            t = interpDict(*pairs, extrapolate_low=ctx.rng.random() < 0.5, extrapolate_high=ctx.rng.random() < 0.5)
-            try:
-                _ = t[(keys[0] + keys[1]) / 2]
-            except IndexError:
-                pass
+            qs_ = list(queries(ctx.rng, keys))
+            if ctx.rng.random() < 0.5:
+                t = interpDict(*pairs, extrapolate_low=ctx.rng.random() < 0.5, extrapolate_high=ctx.rng.random() < 0.5)
+                try:
+                    _ = t[(keys[0] + keys[1]) / 2]
+                except IndexError:
+                    pass
+                note = 'flags set after a first lookup'
+            else:
+                # the very keys that are asked below were asked before, under the opposite flags (extrapolation on, then switched off - or the other way round)
+                t = interpDict(*pairs, extrapolate_low=not exlo, extrapolate_high=not exhi)
+                for q_ in qs_:
+                    try:
+                        _ = t[q_]
+                    except IndexError:
+                        pass
+                note = 'every query was looked up once under the opposite flags, then the flags were set'
             t.extrapolate_low, t.extrapolate_high = exlo, exhi
             ctx.count('tables_flags_set_after_use')
-            pairs = pairs + [['flags set after a first lookup']]
+            pairs = pairs + [[note]]
         else:
             # construction forms: a flag that is off may simply be left out (its documented default is off)
             kw = {}
@@ -120,10 +132,17 @@ def run_cases(ctx, n_tables, check_model):
             if exhi or ctx.rng.random() < 0.5:
                 kw['extrapolate_high'] = exhi
             ctx.count('tables_built_with_' + ('+'.join(sorted(kw)) or 'no flags'))
-            t = interpDict(*pairs, **kw)
+            if ctx.rng.random() < 0.4:
+                # the documented dict form, the dict written in the same (any) order
+                t = interpDict(dict(pairs), **kw)
+                ctx.count('tables_built_from_a_dict')
+                pairs = pairs + [['handed over as one dict']]
+            else:
+                t = interpDict(*pairs, **kw)
+            qs_ = None
             if len(kw) < 2:
                 pairs = pairs + [['only these flags were given: ' + ', '.join(f'{k_}={v_}' for k_, v_ in sorted(kw.items()))]]
-        for q in queries(ctx.rng, keys):
+        for q in (qs_ if qs_ is not None else queries(ctx.rng, keys)):
             try:
                 r = ('ok', t[q])
             except IndexError:
